@@ -173,6 +173,10 @@ pub fn string_interior_offsets(src: &str) -> Vec<usize> {
                         break;
                     }
                     if !multi && b[j] == b'"' {
+                        // the end of the string is an insertion point too (twice: an escape as the
+                        // last thing before the closing quote is where string scanners go wrong)
+                        out.push(j);
+                        out.push(j);
                         j += 1;
                         break;
                     }
@@ -200,7 +204,11 @@ pub fn render_opt(g: &Gen, corpus: &[String], skip_loose: bool) -> String {
     if corpus.is_empty() {
         return String::new();
     }
-    let mut src = corpus[idx(g.base, corpus.len())].clone();
+    // the enumerated function-head zoo sits at the end of the list and is the base of one case in
+    // eight; the harvested programs stay the base of the rest
+    let zoo = ZOO_LEN.load(std::sync::atomic::Ordering::Relaxed).min(corpus.len());
+    let harvested = corpus.len() - zoo;
+    let mut src = if zoo > 0 && (g.base % 8 == 0 || harvested == 0) { corpus[harvested + idx(g.base, zoo)].clone() } else { corpus[idx(g.base, harvested)].clone() };
     for e in &g.edits {
         if skip_loose && e.is_loose_trivia() {
             continue;
@@ -584,6 +592,11 @@ pub fn excluded(src: &str) -> Option<&'static str> {
         if format!("{n:?}").contains("Select(None, Spanned(") && bare_select_then_tuple(&n) {
             return Some("excluded:bare-select-then-tuple");
         }
+        // the same finding when the two only become adjacent once a redundant block is removed
+        // (`{ # } { … }`)
+        if bodyless_fn_then_block(&n) {
+            return Some("excluded:bodyless-fn-then-block");
+        }
     }
     None
 }
@@ -844,10 +857,51 @@ pub fn minimize(src: &str, sig: &str, reg: &qrun::Registry) -> String {
     cur.into_iter().collect()
 }
 
+/// Every combination of the optional parts of a function head — spawned or not, generic or not,
+/// parameter type, return type, body — as small programs (the ones that parse are formatted like
+/// any harvested program and serve as bases for edits). The harvested programs contain only a
+/// few of these combinations.
+pub static ZOO_LEN: std::sync::atomic::AtomicUsize = std::sync::atomic::AtomicUsize::new(0);
+
+pub fn head_zoo() -> Vec<String> {
+    let mut out = Vec::new();
+    for spawn in [false, true] {
+        for generics in ["", "<'t>"] {
+            for (param, arg) in [("", ""), ("'int", "1 "), ("['int, 'bin]", "[1, 0x00] "), ("(x: 'int)", "[x: 1] "), ("'t", "1 ")] {
+                for ret in ["", " -> 'int", " -> ('int | [])", " -> 't"] {
+                    for body in ["", " { $ }", " { 1 }", " { | =0 => 1 | 2 }", " { x = 1, x }"] {
+                        if (param == "'t" || ret == " -> 't") && generics.is_empty() {
+                            continue;
+                        }
+                        let head = format!("#{generics}{param}{ret}{body}");
+                        // the last step is a constant, so that the program compiles whenever the
+                        // head itself is well-typed (bytecode then adjudicates a changed head)
+                        if spawn {
+                            out.push(format!("p = {arg}@{head}, 0"));
+                            out.push(format!("q = {arg}@{head}\n// after\n0"));
+                        } else {
+                            out.push(format!("f = {head}, 0"));
+                            if !arg.is_empty() && !body.is_empty() {
+                                out.push(format!("f = {head}, {arg}f"));
+                            }
+                        }
+                    }
+                }
+            }
+        }
+    }
+    out
+}
+
 pub fn run(ctx: &Ctx) -> i32 {
     let started = Instant::now();
     let stats = Stats::new();
-    let corpus: Arc<Vec<String>> = Arc::new(corpus::all_sources());
+    let mut all = corpus::all_sources();
+    let zoo = head_zoo();
+    stats.note("function_head_zoo_programs", json!(zoo.len()));
+    ZOO_LEN.store(zoo.len(), std::sync::atomic::Ordering::Relaxed);
+    all.extend(zoo);
+    let corpus: Arc<Vec<String>> = Arc::new(all);
     stats.note("corpus_programs", json!(corpus.len()));
     let cases_per_shard: u32 = ctx.tier.pick(2_000, 80_000);
     let known = KnownFindings::load();
@@ -1008,7 +1062,7 @@ pub fn run(ctx: &Ctx) -> i32 {
         ],
         required_classes: vec!["formatted", "with-comments", "line-near-threshold", "bytecode-compared", "output-differs-from-input"],
         started,
-        technique: "proptest edit scripts over harvested programs; oracle = parse/format round trip (fixpoint), AST+bytecode equality, independent comment scanner",
+        technique: "proptest edit scripts over harvested programs and an enumerated zoo of function heads; oracle = parse/format round trip (fixpoint), AST+bytecode equality, independent comment scanner",
     })
 }
 
